@@ -433,7 +433,7 @@ func (g *Gen) indexVal(v Val, ie Expr, env *Env) Val {
 			i := g.toIdx(g.eval(ie, env))
 			return sv(u.Elem(), sel(v.S, i))
 		case *types.Map:
-			k := g.coerce(g.eval(ie, env), u.Key())
+			k := g.keyCoerce(g.eval(ie, env), u.Key())
 			return g.mapLookup(env, v.S, u, k)
 		case *types.Pointer:
 			if at, ok := u.Elem().Underlying().(*types.Array); ok {
@@ -666,6 +666,22 @@ func (g *Gen) evalQuant(x *EQuant, env *Env) Val {
 			guards = append(guards, g.idxLe(zero, on), g.idxLe(zero, ln), g.idxLe(ln, cn))
 			continue
 		}
+		if _, isStruct := t.Underlying().(*types.Struct); isStruct && b.Lo == nil {
+			if ksn, ok := g.structKeySort(t); ok {
+				// a bound variable of a struct type usable as a map key: one datatype-sorted binder, the fields of
+				// the value are its projections
+				name := quote(fmt.Sprintf("%s!d%d", b.Name, g.inQuant))
+				binders = append(binders, "("+name+" "+ksn+")")
+				var projs []string
+				for i := range g.leaves(t) {
+					projs = append(projs, fmt.Sprintf("(%s_f%d %s)", ksn, i, name))
+				}
+				v, _ := g.unflatten(t, projs)
+				vars[b.Name] = v
+				sub.vars[b.Name] = v
+				continue
+			}
+		}
 		if isComposite(t) {
 			panic(contractErr("bound variable %s of composite type", b.Name))
 		}
@@ -694,7 +710,7 @@ func (g *Gen) evalQuant(x *EQuant, env *Env) Val {
 				// has(m,k) is `m != nil && dom[m][k]`; only the select is a legal pattern
 				m := g.eval(hc.Args[0], sub)
 				if mt, ok := m.T.Underlying().(*types.Map); ok {
-					k := g.coerce(g.eval(hc.Args[1], sub), mt.Key())
+					k := g.keyCoerce(g.eval(hc.Args[1], sub), mt.Key())
 					dom, _, _, _ := g.mapHeaps(sub, mt)
 					ts = append(ts, sel(dom, m.S, k.S))
 					continue
@@ -897,7 +913,7 @@ func (g *Gen) evalCall(x *ECall, env *Env) Val {
 		if !ok {
 			panic(contractErr("has() on non-map"))
 		}
-		k := g.coerce(arg(1), mt.Key())
+		k := g.keyCoerce(arg(1), mt.Key())
 		dom, _, _, _ := g.mapHeaps(env, mt)
 		return sv(boolT, and(not(eq(m.S, "0")), sel(dom, m.S, k.S)))
 	case "rangeseen":
@@ -930,7 +946,7 @@ func (g *Gen) evalCall(x *ECall, env *Env) Val {
 			panic(contractErr("rangeseen: no such map range statement"))
 		}
 		mt := rng.X.Type().Underlying().(*types.Map)
-		k := g.coerce(arg(len(x.Args)-1), mt.Key())
+		k := g.keyCoerce(arg(len(x.Args)-1), mt.Key())
 		seen := g.envHeapGet(env, env.heap, g.rangeSeenName(rng), "(Array "+g.scalarSort(mt.Key())+" Bool)")
 		return sv(boolT, sel(seen, k.S))
 	case "fresh":
